@@ -1,4 +1,4 @@
-\* quick: every configuration of 1..3 bindings over hooks h1, h2 x {validating, mutating} x 5 names (2 sharing a webhook id, 2 legal for mutating only) = 225 configurations, every case of Cases(c) (~22 k cases, 100,737 states), all model-checked; one of 5 residue classes of configurations (EmitRem = seed mod 5, set by the check) plus the 8 Core configurations (two hooks, one binding each, every kind combination) are exported for replay (~4.5-5.5 k cases)
+\* quick: every configuration of 1..3 bindings over hooks h1, h2 x {validating, mutating} x 5 names (2 sharing a webhook id, 2 legal for mutating only) = 225 configurations, every case of Cases(c) (~23 k cases, 106,697 states), all model-checked; one of 5 residue classes of configurations (EmitRem = seed mod 5, set by the check) plus the 8 Core configurations (two hooks, one binding each, every kind combination) are exported for replay (~5.0-5.6 k cases)
 SPECIFICATION Spec
 CONSTANTS
   NameIdx = {1, 2, 3, 4, 5}
